@@ -54,7 +54,9 @@ CHECKS = [
              "authenticated user's allocation and binds it once; unbound connections are dropped (peer side closed) exactly at the 30 s deadline; "
              "bytes cross only bound pairs unmodified; duplicate Connect is 446 with no change and the manager is never left locked over any history. "
              "The model is run against the real server on an in-memory stream listener (control and data connections, peer connections, "
-             "segmented byte streams both ways, closes, ticks around 30 s) with a wedge probe after each step.",
+             "segmented byte streams both ways, closes, ticks around 30 s) with a wedge probe after each step. "
+             "History level: the whole predicate evaluated on the observed traces (C16Check: dup_from and holds_from) is proved to hold "
+             "on every trace of the model whose connection ids are fresh (C16_holds_on_every_model_trace; Proofs/TcpTrace.v).",
      "note": "Trusted: Coq kernel, Go harness, simulated TCP. io.Copy taken as identity; data content checked by the correspondence runs. "
              "Allocation/permission rules are C01-C07's.",
      "technique": "Coq proof (step characterisation, invariant over histories) + differential correspondence against the real server's RFC 6062 path under virtual time"},
@@ -74,7 +76,9 @@ CHECKS = [
              "termination within rto + 7 x 1.6 s for every write pattern, matching by id with duplicates/late/foreign responses ignored, table "
              "clean after completion, Close and failed first write. The model is run against the real Client (PerformTransaction / "
              "HandleInbound / Close) on a scripted socket under virtual time: response after each transmission on either side of each "
-             "timer, write error at each transmission, Close at each point, concurrent transactions with interleaved responses.",
+             "timer, write error at each transmission, Close at each point, concurrent transactions with interleaved responses. "
+             "History level: the whole predicate evaluated on the observed traces (C12Check.holds) is proved to hold on every trace of the "
+             "model, for every RTO, write-outcome pattern and history with fresh transaction ids (C12_holds_on_every_model_trace).",
      "note": "Trusted: Coq kernel, Go harness, testing/synctest timers. Timer-callback vs response serialisation by Client.mutexTrMap is "
              "modelled as atomic events (lock discipline is C18). Transaction ids assumed fresh.",
      "technique": "Coq proof (induction on the retransmission counter, closed-form schedule) + differential correspondence against client.go / internal/client/transaction.go"},
@@ -112,7 +116,8 @@ CHECKS = [
      "technique": "Coq proof (inductive invariants / step characterisation over all histories) + differential correspondence of Model/Relay.v against the real turn.Server under virtual time, property predicate evaluated on the observed traces"},
     {"property_id": "C04",
      "text": "Coq theorems: at most one allocation per 5-tuple in every reachable state; a request leaves every other 5-tuple's allocation the same record and answers only its source; data/peer events change nothing and use only the sender's / owner's allocation; chk_C04 on real traces."
-             + ' History level: chk_C04 is proved to hold on every trace of the model.',
+             + ' History level: chk_C04 is proved to hold on every trace of the model (control-connection close, Server.Close and traffic after Close included).'
+             + ' RFC 6062 part: multi-allocation TCP-relay histories (Connect, inbound peer connections, ConnectionBind) are run against Model/TcpRelay.v and judged by the isolation predicate of Check/C04TcpCheck.v (Connect answers to the sender only, ConnectionAttempt to the owner of the relayed address, teardown closes own peer connections only, 446 only for this allocation\'s own connection), which is proved to hold on every trace of that model (C04_tcp_isolation_on_every_model_trace).',
      "note": RELAY_NOTE,
      "technique": "Coq proof (inductive invariants / step characterisation over all histories) + differential correspondence of Model/Relay.v against the real turn.Server under virtual time, property predicate evaluated on the observed traces"},
     {"property_id": "C05",
@@ -136,8 +141,8 @@ CHECKS = [
      "note": RELAY_NOTE,
      "technique": "Coq proof (inductive invariants / step characterisation over all histories) + differential correspondence of Model/Relay.v against the real turn.Server under virtual time, property predicate evaluated on the observed traces"},
     {"property_id": "C15",
-     "text": 'Coq theorems: every step changes allocations/permissions/channels by exactly the net Created-Deleted callbacks, hence over every history callbacks balance against what exists and pair up when all has ended; chk_C15 on real traces incl. relay errors, Refresh 0, expiry. Sockets, timers and goroutines are observed by the harness only (partial).'
-             + ' History level: chk_C15 is proved to hold on every trace of the model.',
+     "text": 'Coq theorems: every step changes allocations/permissions/channels by exactly the net Created-Deleted callbacks, hence over every history callbacks balance against what exists and pair up when all has ended; chk_C15 on real traces for every teardown cause: expiry, Refresh 0, relay socket error, control connection closed (stream listeners), Server.Close, and traffic sent after Close. The observed listing accounts for every open socket/listener of the simulated network (open iff the server\'s own or the relay of a live allocation); timers and goroutines are observed only through their effects and the synctest bubble draining (partial).'
+             + ' History level: chk_C15 (balance after every step; a closed control connection\'s client has no allocation; after Server.Close the listing is empty and nothing happens any more) is proved to hold on every trace of the model; C15_control_connection_close, C15_server_close_leaves_nothing, C15_nothing_after_close.',
      "note": RELAY_NOTE,
      "technique": "Coq proof (inductive invariants / step characterisation over all histories) + differential correspondence of Model/Relay.v against the real turn.Server under virtual time, property predicate evaluated on the observed traces"},
     {"property_id": "C19",
